@@ -23,6 +23,13 @@ use super::exp_parser::parse_exp;
 use crate::runtime_builtin::FunctionCall;
 use crate::{bail_missing_token, err_unexpected_token};
 
+/// Direct child of `pairs` carrying `tag`. Unlike `Pairs::find_first_tagged` the nested
+/// pairs are not searched: a tag that an inner construct uses as well (the `body` of a block
+/// inside an iteration range, the `to` of a nested range) must not be found in place of ours.
+fn child_tagged<'a>(pairs: &Pairs<'a, Rule>, tag: &str) -> Option<Pair<'a, Rule>> {
+    pairs.clone().find(|pair| pair.as_node_tag() == Some(tag))
+}
+
 pub fn parse_objective(objective: Pair<Rule>) -> Result<PreObjective, CompilationError> {
     match objective.as_rule() {
         Rule::objective => {
@@ -461,9 +468,9 @@ pub fn parse_set_iterator_list(
 pub fn parse_block_scoped_function(exp: &Pair<Rule>) -> Result<PreExp, CompilationError> {
     let span = InputSpan::from_pair(exp);
     let inner = exp.clone().into_inner();
-    let name = inner.find_first_tagged("name");
-    let body = inner.find_first_tagged("body");
-    let iters = inner.find_first_tagged("range");
+    let name = child_tagged(&inner, "name");
+    let body = child_tagged(&inner, "body");
+    let iters = child_tagged(&inner, "range");
     if name.is_none() || iters.is_none() || body.is_none() {
         return err_unexpected_token!("found {}, expected scoped block function", exp);
     }
@@ -714,10 +721,15 @@ pub fn parse_iterator(iterator: &Pair<Rule>) -> Result<PreExp, CompilationError>
             let first: Option<Rule> = inner.next().map(|i| i.as_rule());
             match first {
                 Some(Rule::range_iterator) => {
-                    let inner = iterator.clone().into_inner();
-                    let from = inner.find_first_tagged("from").map(parse_parameter);
-                    let to = inner.find_first_tagged("to").map(parse_parameter);
-                    let range_type = inner.find_first_tagged("range_type");
+                    let inner = iterator
+                        .clone()
+                        .into_inner()
+                        .next()
+                        .map(|range| range.into_inner())
+                        .unwrap_or_else(|| iterator.clone().into_inner());
+                    let from = child_tagged(&inner, "from").map(parse_parameter);
+                    let to = child_tagged(&inner, "to").map(parse_parameter);
+                    let range_type = child_tagged(&inner, "range_type");
                     match (from, to, range_type) {
                         (Some(from), Some(to), Some(range_type)) => {
                             let to_inclusive = match range_type.as_str() {
